@@ -87,6 +87,56 @@ def r_copyshape(f):
                 R.inst(b.ident, "rows are transferred destination <- source: zip(rows_mut(), source) item .%s <- .%s" % (fd, fs), okp and okz)
                 if not (okp and okz):
                     R.fail(b.ident, "direction", "%s copies in the wrong direction or zips the wrong cursors" % b.ident, b.where(t["span"]))
+    # copy_within: every arm visits exactly the source rectangle's rows [src.0.1, src.1.1)
+    cw = [b for b in f.fn_bodies if b.name == "copy_within" and b.kind == "AssocFn" and (b.trait_provided or b.impl_trait) and b.trait_head == "CopyOps"]
+    for b in cw:
+        d = Dfx(b)
+        pn = b.param_names()
+        src = None
+        for loc, nm in pn.items():
+            if b.locals[loc] == "((usize, usize), (usize, usize))":
+                src = loc
+
+        def is_src(e, i, j):
+            e = strip(e)
+            # src.i.j possibly through the destructured locals `top_left` / `bottom_right`
+            return e == ("field", ("field", ("param", src), i), j)
+        if src is None:
+            R.inconc(b.ident, "source rectangle parameter not found")
+            continue
+        sets = []
+        for bi, t, fn in b.calls():
+            if not fn:
+                continue
+            if fn["name"] in ("into_iter", "rev") and t["args"]:
+                e = strip(d.expr(t["args"][0]))
+                if e[0] == "agg" and e[1].endswith("Range::Range") and len(e[2]) == 2:
+                    sets.append(("range", e[2][0], e[2][1], t["span"]))
+            if fn["name"] == "take" and t["args"]:
+                recv = strip(d.expr(t["args"][0]))
+                if recv[0] == "call" and recv[2] == "skip" and any(x[0] == "call" and x[2] in ("rows_mut", "rows") for x in walk(recv)):
+                    a = strip(recv[3][1])
+                    nn = strip(d.expr(t["args"][1]))
+                    sets.append(("skip-take", a, ("bin", "Add", a, nn), t["span"], nn))
+        # de-duplicate the rev(range) -> into_iter(rev) chains: keep distinct range expressions
+        seen_r = []
+        for srow in sets:
+            key = (show(srow[1]), show(srow[2]))
+            if key in [k for k, _ in seen_r]:
+                continue
+            seen_r.append((key, srow))
+        for key, srow in seen_r:
+            n += 1
+            lo, hi = srow[1], srow[2]
+            ok = is_src(lo, 0, 1)
+            if srow[0] == "range":
+                ok = ok and is_src(hi, 1, 1)
+            else:
+                nn = srow[4]
+                ok = ok and nn[0] == "bin" and nn[1].startswith("Sub") and is_src(nn[2], 1, 1) and is_src(nn[3], 0, 1)
+            R.inst(b.ident, "row loop visits [%s, %s) = the source rectangle's rows" % (show(lo, pn), show(hi, pn)), ok)
+            if not ok:
+                R.fail(b.ident, "rows:%s..%s" % (show(lo, pn), show(hi, pn)), "%s: a row loop of copy_within visits rows [%s, %s) instead of the source rectangle's rows [src.0.1, src.1.1): rows outside the rectangle are shifted or rows inside it are skipped" % (b.ident, show(lo, pn), show(hi, pn)), b.where(srow[3]))
     R.require_floor(n, 8, "copy functions")
     return R, n
 
